@@ -44,6 +44,20 @@ pub fn check_tokens(out: &mut Out, toks: &[Tok], r: &mut Rng, k: usize) {
     }
     out.nontrivial(&canon);
     out.count(if matches!(base, Built::Tree(_)) { "sequences that precompile" } else { "sequences that are rejected" });
+    // anchor: the canonical rendering of a well-formed sequence means what the reference parser says (so that a
+    // defect that changes *every* rendering in the same way does not hide behind the metamorphic comparison)
+    if let (crate::refmodel::parse::Class::Well, Some(ast)) = crate::refmodel::parse::classify(toks) {
+        if !toks.iter().any(|t| matches!(t, Tok::Ident(w) if crate::refmodel::lex::classify_word(w) == crate::refmodel::lex::WordClass::Unclaimed)) {
+            let ok = match &base {
+                Built::Tree(t) => crate::refmodel::parse::from_node(t).map_or(false, |a| a.same(&ast)),
+                _ => false,
+            };
+            if !ok {
+                out.violation("separators/anchor", format!("{:?}", canon), ast.sx(), show_built(&base));
+                return;
+            }
+        }
+    }
     let mut variants = Vec::new();
     variants.push(gen::render_tight(toks));
     for _ in 0..k {
